@@ -422,7 +422,13 @@ fn serialise_router_advertisement(a: &RtrAdvertisement) -> Vec<u8> {
                 v.serialise(u32::try_from(prefix.valid.as_secs()).unwrap_or(u32::MAX));
                 v.serialise(u32::try_from(prefix.preferred.as_secs()).unwrap_or(u32::MAX));
                 v.serialise(0_u32);
-                v.serialise(&prefix.prefix);
+                /* RFC 4861 4.6.2: the bits after the prefix length must be zero. */
+                let mask = u128::MAX
+                    .checked_shl(128_u32.saturating_sub(prefix.prefixlen.into()))
+                    .unwrap_or(0);
+                v.serialise(&std::net::Ipv6Addr::from(
+                    u128::from(prefix.prefix) & mask,
+                ));
             }
             NDOptionValue::RecursiveDnsServers((lifetime, servers)) => {
                 use std::convert::TryFrom as _;
@@ -470,6 +476,9 @@ fn serialise_router_advertisement(a: &RtrAdvertisement) -> Vec<u8> {
                     .unwrap_or(u16::MAX)
                     .min(0x1fff);
                 v.serialise((scaled_lifetime << 3) | plc);
+                /* RFC 8781 4: the bits after the prefix length must be zero. */
+                let mask = u128::MAX << (128 - u32::from(*prefixlen));
+                let prefix = std::net::Ipv6Addr::from(u128::from(*prefix) & mask);
                 for i in 0..12 {
                     v.serialise(prefix.octets()[i])
                 }
